@@ -7,7 +7,6 @@ use crate::engine::explore::Verdict;
 use crate::engine::ro::SER_QUIET;
 use crate::engine::sf::SF;
 use crate::schemes::*;
-use ark_poly_commit::linear_codes::verif_hooks;
 use ark_serialize::CanonicalSerialize;
 
 fn count<T: CanonicalSerialize>(x: &T) -> (usize, usize) {
@@ -81,7 +80,8 @@ where
     let model = |r: usize| -> Option<usize> {
         let m = (big_n + r - 1) / r;
         let ext = if rho.1 == 1 { (m * rho.0).next_power_of_two() } else { (m * rho.0 + rho.1 - 1) / rho.1 };
-        let t = verif_hooks::calculate_t::<SF>(sec, distance, ext).ok()?;
+        // the harness's own exact t (capped at the codeword length), not the library's
+        let t = super::c13::exact_t(sec, distance, ext as u128, 60000)?.min(ext);
         let depth = (ext.next_power_of_two().trailing_zeros() as usize).max(1);
         Some(t * r + t * depth + m + if wf { m } else { 0 })
     };
@@ -96,9 +96,9 @@ where
     let (np, bytes) = count(&proof);
     // structural law for the chosen shape: t columns of n_rows entries, t paths of `depth` digests,
     // the opened combination and the well-formedness vector - nothing else is shipped
-    let t = match verif_hooks::calculate_t::<SF>(sec, distance, n_ext) {
-        Ok(t) => t,
-        Err(_) => return Verdict::viol("t-error", "calculate_t failed"),
+    let t = match super::c13::exact_t(sec, distance, n_ext as u128, 60000) {
+        Some(t) => t.min(n_ext),
+        None => return Verdict::viol("t-error", "no t satisfies the bound for the scheme's own parameters"),
     };
     let depth = (n_ext.next_power_of_two().trailing_zeros() as usize).max(1);
     let structural = t * n_rows + t * depth + n_cols + if wf { n_cols } else { 0 };
